@@ -384,7 +384,9 @@ PROFILES = {"or": {"disable_or_statements": False}, "or_redundant": {"disable_or
             "inverse": {"inverse_paths": True}, "strict": {"all_instances_are_compliant_mode": False, "keep_less_specific": False},
             "noexact": {"disable_exact_cardinality": True, "allow_opt_cardinality": False}, "cap": {"instances_cap": 2},
             "ratio2": {"decimals": 2, "disable_comments": True}, "dec2": {"decimals": 2}, "dec0": {"decimals": 0},
-            "abs": {"instances_report_mode": "absolute"}}
+            "abs": {"instances_report_mode": "absolute"},
+            # every predicate of the graph in an ignored namespace: instances, but an empty profile (ShaperApi's graph kind "void")
+            "void": {"namespaces_to_ignore": [M.EX, M.RDF, "http://xmlns.com/foaf/0.1/", "http://purl.org/dc/terms/"]}}
 
 
 def _profile_of(payload, who):
@@ -402,7 +404,10 @@ def big_graph(n_classes=2300):
 
 
 ALPHABET = [{"kind": "shex", "fmt": f, "sink": s, "thr": t} for f in ("shexc", "shacl") for s in ("string", "file") for t in (0, 50, 100)] + \
-           [{"kind": "profile", "fmt": "json", "sink": "string", "thr": 0}]
+           [{"kind": "profile", "fmt": "json", "sink": "string", "thr": 0}] + \
+           [{"kind": "shex", "fmt": "shexc", "sink": "string", "thr": 501}]       # (appended: the fixed histories below name letters by index)
+# threshold codes of the specification -> the float handed to shex_graph; 501 is a threshold a rounding error above 50 %
+THR_VALUE = {501: 0.5 * (1 + 4e-10)}
 
 
 def _canon(fmt, text):
@@ -423,7 +428,7 @@ def _do_call(shaper, c, workdir):
         st, v, exc, frame = runner.call_guarded(lambda: shaper.profile_graph(string_output=True), timeout=20)
         return st, (v if st == "ok" else None), None, exc, frame
     fmt = C.SHEXC if c["fmt"] == "shexc" else C.SHACL_TURTLE
-    thr = c["thr"] / 100
+    thr = THR_VALUE.get(c["thr"], c["thr"] / 100)
     if c["sink"] == "string":
         st, v, exc, frame = runner.call_guarded(lambda: shaper.shex_graph(string_output=True, output_format=fmt, acceptance_threshold=thr), timeout=20)
         return st, (v if st == "ok" else None), None, exc, frame
@@ -571,6 +576,14 @@ def sequences(tier, rnd):
             out.append({"id": "s%d" % i, "gid": "small", "nt": nt, "seq": [(w, ALPHABET[j]) for w, j in sq], "shared": rnd.random() < .5,
                         "profiles": {"A": pa, "B": pb}})
             i += 1
+    # thresholds a rounding error apart on one Shaper, in both orders and around other calls (ShaperApi!ThrHit)
+    for sq in [(1, 13), (13, 1), (1, 13, 1), (13, 1, 13), (0, 13, 1), (1, 12, 13), (13, 7), (7, 13), (2, 13, 1)]:
+        out.append({"id": "s%d" % i, "gid": "small", "nt": nt, "seq": [("A", ALPHABET[j]) for j in sq], "shared": False})
+        i += 1
+    # a Shaper whose profile is empty although it has instances, asked several times (ShaperApi!NeedProfile)
+    for sq in [(0, 0), (0, 1), (1, 0, 2), (0, 12), (12, 0), (12, 12, 0), (6, 0), (0, 6, 0), (0, 13, 1)]:
+        out.append({"id": "s%d" % i, "gid": "small", "nt": nt, "seq": [("A", ALPHABET[j]) for j in sq], "shared": False, "profile": "void"})
+        i += 1
     # > 10 000 lines: the serializer flushes its buffer every 5 000 lines
     bnt = M.to_nt(big_graph(2300 if tier == "quick" else 5200))
     for sq in [(0, 3), (3, 0), (3, 3)]:
@@ -588,6 +601,12 @@ def check_c18(out, tier):
     # call histories of any length: the log is a history variable hidden behind a VIEW, the remaining state space is finite
     r = tlc.check_model("MC_ShaperApi", "MC_C18_unbounded.cfg", workers=4, timeout=900)
     out.add_l1("MC_ShaperApi/MC_C18_unbounded.cfg", r)
+    # two plausible rewritings of the memo tests (math.isclose on the threshold, truthiness of the profile) must be rejected by the
+    # model: otherwise it no longer says anything about those tests
+    for anti in ("MC_C18_anti_isclose.cfg", "MC_C18_anti_truthy.cfg"):
+        ra = tlc.check_model("MC_ShaperApi", anti, workers=4, timeout=600)
+        if "HistoryFree" not in ra["violated"]:
+            raise common.Machinery("%s was expected to violate HistoryFree (the model no longer tells the wrong memo tests apart)" % anti)
     for inv in r["violated"]:
         out.violation("L1.%s" % inv, {"model": "MC_ShaperApi"}, r["out"][-1500:])
     seqs = sequences(tier, rnd)
